@@ -361,3 +361,52 @@ __CPROVER_ensures(RET != NULL && RET->g_key == logger_name) /*@ C17 "the returne
     dropped=['logger names as integer keys', 'the constructor arguments of the new logger (sinks, pattern options, clock)', 'asserts (NDEBUG)', 'LockGuard RAII unlock'],
     trusted=['_find_logger / _insert_logger by the contracts units LM.find / LM.insert prove (restated over the tracked logger and the entry just inserted)'], min_obligations=15)
 UNITS += [lm_find, lm_insert, lm_create_or_get]
+
+# ------------------------------------------------------------------------------------------ SinkManager: lookup / insert by name
+SORTED_S = SORTED.replace('typedef struct LGk { Key g_key; bool valid; } LGk;    /* LoggerBase: its name, valid flag */',
+                          'typedef struct Sink { int d; } Sink;\ntypedef struct LGk { Key g_key; bool expired; Sink* sink; } LGk;   /* SinkInfo: sink_id, weak_ptr<Sink> (expired flag + target) */')
+assert SORTED_S != SORTED
+SMK_PRELUDE = SORTED_S + r'''
+typedef struct SMk { KVec _sinks; } SMk;
+#define T_(s) ((s)->_sinks.tracked)
+static inline Sink* WEAK_lock(LGk* e) { return e->expired ? (Sink*)NULL : e->sink; }      /* weak_ptr::lock(): null when the sink is gone */
+'''
+SLB_RULES = [(r'std::lower_bound\(_sinks\.begin\(\),\s*_sinks\.end\(\),\s*(target|sink_name),\s*\[\]\(SinkInfo const& elem, std::string const& b\)\s*\{\s*return elem\.sink_id < b;\s*\}\s*\)', r'LOWER_BOUND(&_sinks, \1)', '!'),
+             (r'auto\s+search_it\s*=', 'size_t const search_it =')]
+sm_find = dict(
+    name='SM.find', primary='C17', props={'C17'}, kind='L',
+    desc='SinkManager::_find_sink: a lookup by name returns exactly the live sink registered under that name; an entry whose sink is gone yields nothing',
+    structs=[], prelude=SMK_PRELUDE, enforce='SM__find_sink', replace=['LOWER_BOUND'],
+    funcs=[dict(src=dict(header=SMH, cls='SinkManager', name='_find_sink'), src_params=['target'], cfun='SM__find_sink', sig='Sink* SM__find_sink(SMk* self, Key target)', ret_default='NULL',
+                cls_c='SM', member_fields=['_sinks'],
+                pre_rules=SLB_RULES + [(r'std::shared_ptr<Sink>\s+sink\s*;', 'Sink* sink = NULL;'), (r'search_it\s*!=\s*std::end\(_sinks\)', '(search_it != _sinks.n)'),
+                                       (r'search_it->sink_id\s*==\s*target', '(KVec_get(&_sinks, search_it)->g_key == target)'), (r'search_it->sink_ptr\.lock\(\)', 'WEAK_lock(KVec_get(&_sinks, search_it))')],
+                contract=r'''
+__CPROVER_requires(__CPROVER_is_fresh(self, sizeof(*self)) && __CPROVER_is_fresh(T_(self), sizeof(LGk)) && __CPROVER_is_fresh(self->_sinks.other, sizeof(LGk)) && self->_sinks.g_p < self->_sinks.n && !g_lb_valid && !g_rep_valid && T_(self)->sink != NULL)
+__CPROVER_assigns(g_lb_pos, g_lb_target, g_lb_valid, g_rep_i, g_rep_valid, self->_sinks.other->g_key)
+__CPROVER_ensures((target == T_(self)->g_key && !T_(self)->expired) ==> RET == T_(self)->sink) /*@ C17 "looking a sink up by its name finds that sink as long as it is alive (shared sinks keep working)" */
+__CPROVER_ensures((target == T_(self)->g_key && T_(self)->expired) ==> RET == NULL) /*@ C17 "a name whose sink was destroyed yields nothing: a sink of that name can be created again" */
+__CPROVER_ensures(RET == T_(self)->sink ==> (target == T_(self)->g_key || RET == self->_sinks.other->sink)) /*@ C17 "a lookup never returns the sink of another name" */
+''')],
+    harness='  SMk* m; Key k; SM__find_sink(m, k);', allow_assume=True,
+    dropped=['sink names as integer keys', 'shared_ptr / weak_ptr as pointer + expired flag'],
+    trusted=['std::lower_bound on a sorted range', 'the registry is sorted by name (kept by SM.insert; entries of equal name can coexist only when the older one is expired: the lookup then sees the newer one first)'],
+    assumes=['shim: keys of representative elements respect the sorted order and the last lower_bound answer'], min_obligations=10)
+sm_insert = dict(
+    name='SM.insert', primary='C17', props={'C17'}, kind='L',
+    desc='SinkManager::_insert_sink: a new entry goes exactly where lower_bound of its name points, so the registry stays sorted',
+    structs=[], prelude=SMK_PRELUDE + r'''
+LGk* SINKINFO_new(Key name, Sink* s) __CPROVER_assigns() __CPROVER_ensures(__CPROVER_is_fresh(RET, sizeof(LGk)) && RET->g_key == name && !RET->expired && RET->sink == s);
+''', enforce='SM__insert_sink', replace=['LOWER_BOUND', 'SINKINFO_new'],
+    funcs=[dict(src=dict(header=SMH, cls='SinkManager', name='_insert_sink'), src_params=['sink_name', 'sink'], cfun='SM__insert_sink', sig='void SM__insert_sink(SMk* self, Key sink_name, Sink* sink)',
+                cls_c='SM', member_fields=['_sinks'],
+                pre_rules=SLB_RULES + [(r'_sinks\.insert\(search_it,\s*SinkInfo\{sink_name,\s*sink\}\)\s*;', 'KVec_insert(&_sinks, search_it, SINKINFO_new(sink_name, sink));')],
+                contract=r'''
+__CPROVER_requires(__CPROVER_is_fresh(self, sizeof(*self)) && __CPROVER_is_fresh(T_(self), sizeof(LGk)) && __CPROVER_is_fresh(self->_sinks.other, sizeof(LGk)) && self->_sinks.g_p < self->_sinks.n && self->_sinks.n < (((size_t)1) << 40) && !g_lb_valid)
+__CPROVER_assigns(g_lb_pos, g_lb_target, g_lb_valid, g_rep_valid, self->_sinks.n, self->_sinks.g_p, self->_sinks.g_inserts)
+__CPROVER_ensures(self->_sinks.n == OLD(self->_sinks.n) + 1 && self->_sinks.g_inserts == OLD(self->_sinks.g_inserts) + 1) /*@ C17 "exactly one entry is added" */
+__CPROVER_ensures(self->_sinks.g_p == OLD(self->_sinks.g_p) + ((sink_name <= T_(self)->g_key) ? 1 : 0)) /*@ C17 "every entry already registered stays in name order relative to the new one; a new entry of an equal name (the old sink is gone) goes in front, so lookups see the new sink" */
+''')],
+    harness='  SMk* m; Key k; Sink* s; SM__insert_sink(m, k, s);',
+    dropped=['sink names as integer keys', 'shared_ptr -> weak_ptr conversion'], trusted=['std::lower_bound; std::vector::insert'], min_obligations=10)
+UNITS += [sm_find, sm_insert]
